@@ -356,6 +356,20 @@ func (c *Crew) GetChanged(ctx context.Context) (map[string]*Changed, error) {
 
 		if change.State != nil {
 			ched.State = change.State.Copy()
+			if mid == TimersMachine {
+				// The timers machine's bindings hold the live
+				// map of pending timers, which the timer
+				// goroutines keep changing (under this crew's
+				// lock, which we hold).  What goes out to the
+				// host has to be a snapshot.
+				if live, is := ched.State.Bs["timers"].(map[string]*TimerEntry); is {
+					snapshot := make(map[string]*TimerEntry, len(live))
+					for id, te := range live {
+						snapshot[id] = te
+					}
+					ched.State.Bs["timers"] = snapshot
+				}
+			}
 		}
 
 		if change.SpecSrc != nil {
